@@ -1412,6 +1412,88 @@ func TestInverse(t *testing.T) {
 	hx.Part("inverse: Option(Parse(o)) canonical for every ordering x 3 spellings of every well-formed list", m, true)
 }
 
+// TestWindowBits: all 256 WindowBits values. Defined() == (b != 0) as
+// documented; Bytes() == 2^b for the RFC range 8..15 (nothing is promised
+// outside it: called, not asserted). Parameters.Option() with a window field
+// outside {0, 1, 8..15} is not documented: it may panic (the unchanged tree
+// does, with an explicit message) or omit the parameter, but it must not hand
+// out an option carrying a window value outside 8..15.
+func TestWindowBits(t *testing.T) {
+	n := 0
+	for v := 0; v < 256; v++ {
+		if !hx.Mine(v) {
+			continue
+		}
+		b := wsflate.WindowBits(v)
+		n++
+		if b.Defined() != (v != 0) {
+			hx.Failf(t, v, "WindowBits(%d).Defined() = %v", v, b.Defined())
+			return
+		}
+		size, panicked := 0, false
+		func() {
+			defer func() { panicked = recover() != nil }()
+			size = b.Bytes()
+		}()
+		if v >= 8 && v <= 15 {
+			if panicked || size != 1<<uint(v) {
+				hx.Failf(t, v, "WindowBits(%d).Bytes() = %d (panicked=%v), want %d", v, size, panicked, 1<<uint(v))
+				return
+			}
+			hx.NonTrivial(hx.Hash("bits", v), func() interface{} { return map[string]int{"bits": v, "bytes": size} })
+		} else {
+			hx.Class("open/bytes-outside-8..15")
+		}
+		if v == 15 && size != wsflate.MaxLZ77WindowSize {
+			hx.Failf(t, v, "WindowBits(15).Bytes() = %d, MaxLZ77WindowSize = %d", size, wsflate.MaxLZ77WindowSize)
+			return
+		}
+		valid := v == 0 || v == 1 || (v >= 8 && v <= 15)
+		for field := 0; field < 2; field++ {
+			p := wsflate.Parameters{ServerNoContextTakeover: v%2 == 0}
+			if field == 0 {
+				if v == 1 {
+					continue // valueless server_max_window_bits is no valid Parameters value
+				}
+				p.ServerMaxWindowBits = b
+			} else {
+				p.ClientMaxWindowBits = b
+			}
+			n++
+			var e ext
+			returned := false
+			func() {
+				defer func() { recover() }()
+				e = readOption(p.Option())
+				returned = true
+			}()
+			if valid {
+				if !returned {
+					hx.Failf(t, fmt.Sprintf("%+v", p), "Option() panicked on a valid Parameters value")
+					return
+				}
+				continue // contents are checked by TestInverse
+			}
+			if !returned {
+				hx.Class("option-out-of-range/panics")
+				continue
+			}
+			hx.Class("option-out-of-range/returns")
+			for _, q := range e.Params {
+				if q.K != kSMWB && q.K != kCMWB {
+					continue
+				}
+				if _, ok := strictBits(q.V); !ok {
+					hx.Failf(t, fmt.Sprintf("%+v", p), "Option() of out-of-range window bits %d emitted %q", v, e.String())
+					return
+				}
+			}
+		}
+	}
+	hx.EvalN(n)
+	hx.Part("window bits: all 256 WindowBits values (Defined, Bytes) and Option() with each in either window field", int64(n), true)
+}
+
 // ---------------------------------------------------------------------------
 // Reset
 
